@@ -233,7 +233,7 @@ def core_cells(prop, monitors):
             other = importlib.import_module(f"props.{other_id.lower()}")
             cache[other_id] = {c["name"]: c for c in other.cells("quick")}
         c = cache[other_id].get(name)
-        if c is not None and c.get("world", "pool") == "pool":
+        if c is not None and c.get("world", "pool") == "pool" and not c.get("own_only"):
             key = json.dumps(c["scen"], sort_keys=True)
             if key in seen:
                 continue
@@ -265,7 +265,8 @@ def run_property(prop, tier, seed, jobs=None, only=None, budget=None, grid=None,
         # experiment mode: this property's monitors on another property's scenario grid
         other = importlib.import_module(f"props.{grid.lower()}")
         own = mon.split(",") if mon else getattr(mod, "MON", [prop])
-        cells = [dict(c, monitors=list(own), name=f"[{grid}] " + c["name"]) for c in other.cells(tier) if c.get("world", "pool") == "pool"]
+        cells = [dict(c, monitors=list(own), name=f"[{grid}] " + c["name"]) for c in other.cells(tier)
+                 if c.get("world", "pool") == "pool" and not c.get("own_only")]
     if tier == "thorough" and not grid and prop in CROSS_PROPS and getattr(mod, "CROSS", True):
         # thorough tier: this property's monitors also run on the quick grids of the other pool properties
         # (the monitors are sound on any pool scenario; histories designed for one property often break another)
@@ -274,8 +275,10 @@ def run_property(prop, tier, seed, jobs=None, only=None, budget=None, grid=None,
             if other_id == prop:
                 continue
             other = importlib.import_module(f"props.{other_id.lower()}")
+            # (cells marked own_only use harness features only their own monitors understand - a caller of
+            # gather_and_close() cancelled by the harness, callbacks that flush behind the harness' back, pools sharing a name)
             cells += [dict(c, monitors=list(own), name=f"[{other_id}] " + c["name"]) for c in other.cells("quick")
-                      if c.get("world", "pool") == "pool"]
+                      if c.get("world", "pool") == "pool" and not c.get("own_only")]
     if tier == "quick" and not grid and prop in CROSS_PROPS and getattr(mod, "CROSS", True):
         cells += core_cells(prop, getattr(mod, "MON", [prop]))
     if only:
